@@ -251,6 +251,53 @@ func multiGenerator(c *hx.Ctx, h *hist, cfg genCfg, maxWallets int, pool [][4]in
 	}
 }
 
+// saveFailHistory: three accounts, then each kind of mutating operation is issued while saves are
+// blocked (it must fail and change nothing), saves are unblocked, and ordinary operations follow
+// (the next successful save must write the state before the failure plus the later operations only).
+func saveFailHistory(c *hx.Ctx, which int) (hist, opGen) {
+	h := hist{Stream: "savefail", SaveFail: true, Prm: lightParams[c.Intn(len(lightParams))], KeyTyp: []int{0, 0, []int{0, 1, 2}[c.Intn(3)], 0}}
+	sch := func(slot int) int { return validScheme(c, h.KeyTyp[slot]) }
+	imp := func(slot int, label string) opRec {
+		return opRec{Kind: "import", Slot: slot, Label: label, Sch: sch(slot), Pwd: "pw" + string(rune('a'+slot)), IsDef: c.Intn(3) == 0}
+	}
+	pw := func(slot int) string { return "pw" + string(rune('a'+slot)) }
+	h.Ops = []opRec{imp(0, "one"), imp(1, "two"), imp(2, "three")}
+	var victim []opRec
+	switch which % 10 {
+	case 0:
+		victim = []opRec{{Kind: "delete", Slot: 1, Pwd: pw(1)}} // middle
+	case 1:
+		victim = []opRec{{Kind: "delete", Slot: 2, Pwd: pw(2)}} // last
+	case 2:
+		h.Ops = append(h.Ops, opRec{Kind: "setdefault", Slot: 2})
+		victim = []opRec{{Kind: "delete", Slot: 0, Pwd: pw(0)}} // first
+	case 3:
+		victim = []opRec{{Kind: "new", Slot: -1, Label: "fresh", Sch: 1, Pwd: "pwn"}}
+	case 4:
+		victim = []opRec{imp(3, "four")}
+	case 5:
+		victim = []opRec{{Kind: "chpwd", Slot: c.Intn(3), Pwd: "", New: "changed"}}
+		victim[0].Pwd = pw(victim[0].Slot)
+	case 6:
+		victim = []opRec{{Kind: "setdefault", Slot: 1 + c.Intn(2)}}
+	case 7:
+		victim = []opRec{{Kind: "setlabel", Slot: c.Intn(3), Label: "renamed"}}
+	case 8:
+		victim = []opRec{{Kind: "chsch", Slot: 0, Sch: 2}, {Kind: "chsch", Slot: 1, Sch: 3}}
+	default: // several in a row, with operations that fail for other reasons in between
+		victim = []opRec{{Kind: "delete", Slot: 1, Pwd: "wrong"}, {Kind: "delete", Slot: 1, Pwd: pw(1)}, {Kind: "setlabel", Slot: 2, Label: "one"},
+			{Kind: "setlabel", Slot: 2, Label: "z"}, {Kind: "chpwd", Slot: 0, Pwd: pw(0), New: "n0"}, {Kind: "reload", Slot: -1}}
+	}
+	h.Ops = append(h.Ops, opRec{Kind: "block"})
+	h.Ops = append(h.Ops, victim...)
+	h.Ops = append(h.Ops, opRec{Kind: "unblock"})
+	if c.Intn(2) == 0 { // the same operations again, now they must succeed
+		h.Ops = append(h.Ops, victim...)
+	}
+	h.Ops = append(h.Ops, opRec{Kind: "setlabel", Slot: 0, Label: "after"}) // a successful save
+	return h, generator(c, &h, genCfg{nOps: c.Intn(5), allowNew: true, newWeight: 10})
+}
+
 func randKeyTypes(c *hx.Ctx, n int) []int {
 	var kt []int
 	for i := 0; i < n; i++ {
@@ -321,7 +368,7 @@ func Run(c *hx.Ctx) {
 		return false
 	}
 	// main stream: wallets with light scrypt parameters, histories outside the finding classes
-	for i := 0; i < c.N(90, 1500) && !over("light"); i++ {
+	for i := 0; i < c.N(70, 1500) && !over("light"); i++ {
 		h := hist{Stream: "light", Prm: lightParams[c.Intn(len(lightParams))], KeyTyp: randKeyTypes(c, 2+c.Intn(3))}
 		seq++
 		runHist(c, h, seq, generator(c, &h, genCfg{nOps: 3 + c.Intn(14), allowNew: i%3 == 0, newWeight: 10}))
@@ -362,6 +409,12 @@ func Run(c *hx.Ctx) {
 		}
 		seq++
 		runHist(c, h, seq, multiGenerator(c, &h, cfg, 2+c.Intn(2), pool))
+	}
+	// save failures around every kind of mutating operation
+	for i := 0; i < c.N(20, 200) && !over("savefail"); i++ {
+		h, g := saveFailHistory(c, i)
+		seq++
+		runHist(c, h, seq, g)
 	}
 	// histories in which the caller breaks an obligation on imports (foreign parameters, empty password)
 	for i := 0; i < c.N(10, 80) && !over("caller-bad"); i++ {
